@@ -737,6 +737,7 @@ struct Config
   bool gate                    = false;
   bool backlog_flush           = false;  // directed scenario: flushes arrive while a multi-batch backlog is exported
   bool emit_shutdown_in_flush  = false;  // directed scenario: emit + Shutdown while a ForceFlush sits in a slow exporter flush
+  bool timedout_flush          = false;  // directed scenario: a ForceFlush times out in a parked Export, then flush + burst
   int extra_processors         = 0;
   unsigned yield_ppm = 0, sleep_ppm = 0, cas_ppm = 0, wake_ppm = 0;
   std::string describe() const
@@ -840,9 +841,32 @@ static Config make_config(Rng &r, bool thorough)
     if (r.coin())
       c.phases.push_back(bounded);
   }
+  if (!c.backlog_flush && c.subject < 4 && r.chance(1, 8))
+  {
+    // Directed scenario (from seeded change C01-w3-1): a ForceFlush with a finite timeout expires while the Export
+    // it caused is parked; more records arrive; the exporter is released; the next ForceFlush(max) must really
+    // flush (its ticket must not be confused with the abandoned one), so that a following burst of exactly
+    // max_queue_size records fits.
+    c.timedout_flush = true;
+    static const size_t qs[] = {4, 8, 16};
+    c.queue    = r.pick(qs);
+    c.batch    = static_cast<size_t>(r.range(1, 2));
+    c.delay_ms = static_cast<int>(r.range(1, 5));
+    c.gate     = false;
+    c.phases.clear();
+    Phase bounded;
+    bounded.bounded_by_queue = true;
+    bounded.quiescent_flush  = true;
+    bounded.flushers         = 0;
+    bounded.producers        = static_cast<int>(std::min<size_t>(static_cast<size_t>(r.range(1, 4)), c.queue));
+    bounded.per_producer     = static_cast<int>(c.queue / static_cast<size_t>(bounded.producers));
+    c.phases.push_back(bounded);
+    if (r.coin())
+      c.phases.push_back(bounded);
+  }
   // Directed scenario (from seeded change C01-w2-1): a ForceFlush on an idle processor is inside a slow exporter
   // ForceFlush when one thread emits a few records and then calls Shutdown: they were produced before Shutdown.
-  c.emit_shutdown_in_flush = !c.backlog_flush && c.subject < 4 && r.chance(1, 7);
+  c.emit_shutdown_in_flush = !c.backlog_flush && !c.timedout_flush && c.subject < 4 && r.chance(1, 7);
   if (c.emit_shutdown_in_flush)
     c.shutdown_mode = 0;
   switch (r.below(3))
@@ -1475,10 +1499,17 @@ static void run_history(uint64_t seed, bool thorough)
     slow                 = true;
     R.count("histories_backlog_flush");
   }
+  if (c.timedout_flush)
+  {
+    script->latency_mode = 2;
+    script->slow_us      = static_cast<unsigned>(r.range(1000, 3000));
+    slow                 = true;
+    R.count("histories_timedout_flush");
+  }
   script->export_fail    = r.chance(1, 6);
   script->flush_false    = r.chance(1, 6);
   script->shutdown_false = r.chance(1, 6);
-  if (c.gate)
+  if (c.gate || c.timedout_flush)
     script->gate_at_export = 0;
 
   EventLog::get().reset();
@@ -1544,6 +1575,23 @@ static void run_history(uint64_t seed, bool thorough)
     else
       R.count("gate_not_reached");
     script->open.store(1, std::memory_order_relaxed);
+  }
+
+  // ---- a ForceFlush that times out inside a parked Export, then a real one ------------------------
+  if (c.timedout_flush)
+  {
+    vf::WatchdogScope wd(std::string("flush-after-timed-out-flush:") + S.name(), 90);
+    size_t first = std::max<size_t>(1, std::min<size_t>(c.queue, c.batch));
+    for (size_t i = 0; i < first; ++i)
+      logged_produce(S, 0, next_seq[0]++);
+    logged_flush(S, FlushSpec{3});  // 50 ms: expires while the first Export is parked at the gate
+    if (script->parked.load(std::memory_order_relaxed))
+      R.count("timedout_flush_exporter_parked");
+    // these wait in the queue behind the parked Export (never more than the queue holds)
+    for (size_t i = 0; i + 1 < c.queue; ++i)
+      logged_produce(S, 0, next_seq[0]++);
+    script->open.store(1, std::memory_order_relaxed);
+    logged_flush(S, FlushSpec{4});  // must not return true before everything above went through Export
   }
 
   // ---- phases --------------------------------------------------------------------------------
